@@ -161,3 +161,94 @@ def check_precision(ck, rule, fn, outcomes, min_digits=21):
         ck.ob(rule, '%s::precision-covers-every-mp-op' % fn.name, bad is None, bad or '', fn.loc(),
               key='%s::mp-precision' % fn.name)
     return n_paths, n_ops
+
+
+def check_float_division(ck, rule, fn, small_names=None):
+    """Precision discipline for `/`: a true division is evaluated either in mpmath (one operand
+    derives from an mpmath call) or between *raw* 32-bit quantities - parameters (possibly through
+    int()/float()/abs()/unary minus) and literals - where a double is exact enough.  A quotient
+    of a compound integer expression (which can exceed 2^53 in the firmware domain) computed in
+    plain float loses the low bits that the following floor/ceil depends on.
+
+    mpf-ness is a flow-insensitive fixpoint over the function's local names: a name is mpf if some
+    assignment gives it an mpf expression; an expression is mpf if it calls mpmath.* or combines
+    an mpf operand arithmetically."""
+    import ast
+    small = set(fn.params) | set(small_names or ())
+    mod = fn.module
+
+    def is_mp_call(node):
+        if isinstance(node, ast.Call):
+            f = node.func
+            if isinstance(f, ast.Attribute):
+                base = f.value
+                while isinstance(base, ast.Attribute):
+                    base = base.value
+                if isinstance(base, ast.Name) and mod.imports.get(base.id, '').startswith('ext:mpmath'):
+                    return True
+        return False
+
+    mpf_names = set()
+
+    def is_mpf(node):
+        if is_mp_call(node):
+            return True
+        if isinstance(node, ast.Name):
+            return node.id in mpf_names
+        if isinstance(node, ast.BinOp):
+            return is_mpf(node.left) or is_mpf(node.right)
+        if isinstance(node, ast.UnaryOp):
+            return is_mpf(node.operand)
+        if isinstance(node, ast.IfExp):
+            return is_mpf(node.body) or is_mpf(node.orelse)
+        return False
+
+    assigns = [n for n in ast.walk(fn.node) if isinstance(n, (ast.Assign, ast.AugAssign))]
+    changed = True
+    while changed:
+        changed = False
+        for a in assigns:
+            tgts = a.targets if isinstance(a, ast.Assign) else [a.target]
+            val_mpf = is_mpf(a.value) or (isinstance(a, ast.AugAssign) and is_mpf(a.target))
+            if val_mpf:
+                for t in tgts:
+                    if isinstance(t, ast.Name) and t.id not in mpf_names:
+                        mpf_names.add(t.id)
+                        changed = True
+
+    # names that are re-bound to int(param) etc. stay "raw": a raw name is a parameter or a local
+    # only ever assigned from raw expressions
+    raw_names = set(small)
+
+    def is_raw(node):
+        if isinstance(node, ast.Constant) and isinstance(node.value, (int, float)):
+            return True
+        if isinstance(node, ast.Name):
+            return node.id in raw_names
+        if isinstance(node, ast.UnaryOp) and isinstance(node.op, (ast.USub, ast.UAdd)):
+            return is_raw(node.operand)
+        if isinstance(node, ast.Call) and isinstance(node.func, ast.Name) and \
+                node.func.id in ('int', 'float', 'abs') and len(node.args) == 1:
+            return is_raw(node.args[0])
+        return False
+
+    n = 0
+    for node in ast.walk(fn.node):
+        div = None
+        if isinstance(node, ast.BinOp) and isinstance(node.op, ast.Div):
+            div = (node.left, node.right)
+        elif isinstance(node, ast.AugAssign) and isinstance(node.op, ast.Div):
+            div = (node.target, node.value)
+        if div is None:
+            continue
+        n += 1
+        left, right = div
+        ok = is_mpf(left) or is_mpf(right) or (is_raw(left) and is_raw(right))
+        ck.ob(rule, '%s::div@%s' % (fn.name, ast.unparse(node)[:50]), ok,
+              '%s: the quotient `%s` (line %d) is evaluated in plain double precision although an '
+              'operand is a compound integer expression that can exceed 2^53 in the firmware '
+              'domain; the rounding that follows then depends on lost low bits (use mpmath.mpf '
+              'operands as the neighbouring formulas do)' % (fn.qualname, ast.unparse(node)[:80],
+                                                             node.lineno),
+              fn.loc(node), key='%s::float-division' % fn.qualname)
+    return n
